@@ -13,7 +13,8 @@ ASSUMPTIONS = [
     'text content carries the codec it was encoded with, so a wrong codec anywhere in the conversion shows as inequality',
     'open() inside the tools is a virtual file system of RopeFiles; argparse entry points and real files are outside',
 ]
-SHAPES19 = [[2, 4], [3, 12, 63], [48, 55], [2, 43, 71], [31, 127]]
+SHAPES19 = [[2, 4], [3, 12, 63], [48, 55], [2, 43, 71], [31, 127], [2, 'PDS0002', 'PDS0158', 'PDS9000']]
+LONG19 = [[72, 127], [54, 111, 'PDS0023']]
 
 
 def _funcs():
@@ -82,11 +83,11 @@ def ipm_convert(tool, a, b, fa, fb, nrec, shapes=None, maxvar=300):
     return h
 
 
-def param_convert(tool, a, b, fa, fb, nrec):
+def param_convert(tool, a, b, fa, fb, nrec, plen=800):
     def h():
         core.FUEL.set(40)
         m = M()
-        ns = [sym_int('rec%d_len' % i, 1, 800) for i in range(nrec)]
+        ns = [sym_int('rec%d_len' % i, 1, plen) for i in range(nrec)]
         texts = [Source('prec%d' % i, 't', n).rope() for i, n in enumerate(ns)]
         rp = {'kind': 'param', 'args': {'tool': tool, 'a': a, 'b': b, 'fa': fa, 'fb': fb, 'lens': [ev(n) for n in ns]}}
         src = RopeFile()
@@ -134,6 +135,11 @@ def obligations(tier):
                 continue
             obs.append(Ob('mci_ipm_encode/%s-%s/%s-%s' % (a, b, fmt(fa), fmt(fb)), ipm_convert('mci_ipm_encode', a, b, fa, fb, 1), 900,
                           'one record of any shape in %s, all lengths/values' % SHAPES19, _funcs))
+    for a, b, fa, fb in (('latin_1', 'cp500', False, True), ('cp500', 'latin_1', True, True)):
+        obs.append(Ob('mci_ipm_encode/%s-%s/%s-%s/long-record' % (a, b, fmt(fa), fmt(fb)), ipm_convert('mci_ipm_encode', a, b, fa, fb, 1, shapes=LONG19, maxvar=None), 1800,
+                      'one long record (elements %s, every length up to 999 each: records up to ~3000 bytes spanning several blocks)' % LONG19, _funcs))
+    obs.append(Ob('mideu-convert/cp500-latin_1/1014/long-record', ipm_convert('mideu', 'cp500', 'latin_1', True, True, 1, shapes=LONG19[:1], maxvar=None), 1800,
+                  'legacy converter, one long record', _funcs))
     obs.append(Ob('mci_ipm_encode/cp500-latin_1/1014-1014/2rec', ipm_convert('mci_ipm_encode', 'cp500', 'latin_1', True, True, 2, shapes=SHAPES19[:3], maxvar=200), 1800,
                   'two records', _funcs))
     for a, b in (('cp500', 'latin_1'), ('latin_1', 'cp500')):
@@ -146,4 +152,8 @@ def obligations(tier):
                     continue
                 obs.append(Ob('%s/%s-%s/%s-%s' % (tool, a, b, fmt(fa), fmt(fb)), param_convert(tool, a, b, fa, fb, 2), 900,
                               'two opaque parameter records of length 1..800', _funcs))
+    obs.append(Ob('mci_ipm_param_encode/cp500-latin_1/vbs-1014/long-record', param_convert('mci_ipm_param_encode', 'cp500', 'latin_1', False, True, 1, plen=3000), 900,
+                  'one opaque parameter record of length 1..3000', _funcs))
+    obs.append(Ob('paramconv/latin_1-cp500/1014-1014/long-record', param_convert('paramconv', 'latin_1', 'cp500', True, True, 1, plen=3000), 900,
+                  'one opaque parameter record of length 1..3000', _funcs))
     return obs
